@@ -816,8 +816,8 @@ func main() {
 			{"rpc", "", 2, 2, 2, true, [][]Op{nil, seedOps("a")}},
 			// plan ttlmc (ttlmc.go): the lock's ttl and min-commit-ts as state; few keys / transactions, deeper
 			{"ttlmc-1key", planTTLMC, 1, 1, 6, false, empty},
-			{"ttlmc-1key-rpc", planTTLMC, 1, 1, 5, true, empty},
-			{"ttlmc-2txns", planTTLMC, 1, 2, 5, false, empty},
+			{"ttlmc-1key-rpc", planTTLMC, 1, 1, 6, true, empty},
+			{"ttlmc-2txns", planTTLMC, 1, 2, 7, false, empty},
 			{"ttlmc-2keys", planTTLMC, 2, 1, 4, false, empty},
 		}
 	} else {
@@ -826,10 +826,10 @@ func main() {
 			{"direct-wide", "", 3, 3, 3, false, [][]Op{nil, seedOps("a"), seedOps("a", "b")}},
 			{"rpc", "", 2, 2, 3, true, [][]Op{nil, seedOps("a")}},
 			{"ttlmc-1key", planTTLMC, 1, 1, 8, false, empty},
-			{"ttlmc-1key-rpc", planTTLMC, 1, 1, 7, true, empty},
-			{"ttlmc-2txns", planTTLMC, 1, 2, 7, false, empty},
-			{"ttlmc-2keys", planTTLMC, 2, 1, 6, false, empty},
-			{"ttlmc-2keys-2txns", planTTLMC, 2, 2, 4, false, empty},
+			{"ttlmc-1key-rpc", planTTLMC, 1, 1, 8, true, empty},
+			{"ttlmc-2txns", planTTLMC, 1, 2, 8, false, empty},
+			{"ttlmc-2keys", planTTLMC, 2, 1, 10, false, empty},
+			{"ttlmc-2keys-2txns", planTTLMC, 2, 2, 6, false, empty},
 		}
 	}
 	if only := os.Getenv("VERIF_C12_PASSES"); only != "" { // developer aid: run a subset of the passes (evidence then says so)
